@@ -251,7 +251,9 @@ def update_dictionary(current, update):
             for added_value in value:
                 added_key = added_value["key"]
                 added_state = added_value["state"]
-                result[added_key] = added_state
+                # copy so that later in-place updates of the entry do
+                # not modify the update object that added it
+                result[added_key] = copy.deepcopy(added_state)
         elif key == "_delete":
             for k in value:
                 del result[k]
